@@ -18,7 +18,7 @@ func init() {
 		Text: "hash and equality agree: for every Comparable, Hash and Compare read the same storage projection; when the cell type is floating point the value whose bit pattern is hashed is zero-normalised (f+0, or a `== 0` guarded assignment of the constant 0) and NaN-normalised (an IsNaN guarded assignment of a canonical NaN) because Compare treats 0/-0 as equal and all NaNs alike",
 		Run:  runR12})
 	register(&Rule{ID: "R27", Name: "JSON-ESCAPE", Floor: 6,
-		Text: "in the module-internal call tree of QFrame.ToJSON (all AppendByteStringAt implementations included) no non-constant Go string is turned into output bytes except inside the escaper strings.AppendQuotedString: no []byte(s), append(buf, s...) or copy(buf, s) of a non-constant string elsewhere",
+		Text: "in the module-internal call tree of QFrame.ToJSON (all AppendByteStringAt implementations included) no non-constant Go string is turned into output bytes except inside the escaper strings.AppendQuotedString: no []byte(s), append(buf, s...) or copy(buf, s) of a non-constant string elsewhere, and no function outside the module (strconv.AppendQuote, fmt.Append*, ...) that returns bytes is handed a non-constant string",
 		Run:  runR27})
 	register(&Rule{ID: "R33", Name: "NARROW", Floor: 4,
 		Text: "every narrowing integer conversion to an 8-bit type in internal/ecolumn and internal/strings is justified by dominating guards: the operand's upper bound is < nullValue (255) for enumVal and < utf8.RuneSelf (0x80) for a rune stored as one byte; lower bound >= 0",
@@ -425,6 +425,30 @@ func runR27(c *Ctx) {
 				if (b == "append" || b == "copy") && len(t.Call.Args) == 2 && isStr(t.Call.Args[1]) && !isConst(t.Call.Args[1]) {
 					n++
 					c.bad(fnm+"|raw string to bytes", p.instrPos(t), "a non-constant Go string is appended to the JSON output without escaping")
+				}
+				// a function outside the module that turns a string into bytes (strconv.AppendQuote, fmt.Append...,
+				// json.Marshal of a string): Go literal syntax and other quoting schemes are not JSON's
+				if callee := t.Call.StaticCallee(); callee != nil && b == "" && (callee.Pkg == nil || !inModule(callee.Pkg.Pkg)) {
+					retBytes := false
+					rs := callee.Signature.Results()
+					for i := 0; i < rs.Len(); i++ {
+						if sl, ok := rs.At(i).Type().Underlying().(*types.Slice); ok {
+							if bb, ok := sl.Elem().Underlying().(*types.Basic); ok && bb.Kind() == types.Byte {
+								retBytes = true
+							}
+						}
+					}
+					if retBytes {
+						for _, a := range t.Call.Args {
+							if mi, ok := a.(*ssa.MakeInterface); ok {
+								a = mi.X
+							}
+							if isStr(a) && !isConst(a) {
+								n++
+								c.bad(fnm+"|raw string to bytes", p.instrPos(t), fmt.Sprintf("a non-constant Go string is turned into output bytes by %s, not by the JSON escaper: its quoting rules (\\x01, \\a, \\U000e0001 ...) are not JSON's", fname(callee)))
+							}
+						}
+					}
 				}
 			}
 		})
